@@ -17,21 +17,21 @@ theorem inplace_ops_on_fresh :
       ["exec.cleanupForwardAxis", "exec.cleanupBackwardAxis", "exec.unionCleanup"].contains s.1) = true := by
   decide +kernel
 
-/-- **no_shared_writes** — outside the command-line tool's `main`, no function assigns to a
-    package-level variable or calls a mutating/synchronising method (Store, LoadOrStore, Delete, Lock, …)
-    on one (no caches, counters or memo tables shared between queries); the CLI's directory walker only
-    adds to its WaitGroup. -/
+/-- **no_shared_writes** — in the LIBRARY packages (everything but the command-line tool's package
+    `main`) no function assigns to a package-level variable or calls a mutating/synchronising method
+    (Store, LoadOrStore, Delete, Lock, …) on one: no caches, counters or memo tables are shared
+    between queries. -/
 theorem no_shared_writes :
-    (Generated.globalWrites.all fun w => w.1 == "main.main" || w == ("main.walker", "fileSync.Add")) = true := by decide +kernel
+    (Generated.globalWrites.all fun w => w.1 == "main") = true := by decide +kernel
 
-/-- **one_write_per_block** — the command-line tool writes to standard output in exactly one place:
-    the single `fmt.Print` of a file's whole block in `executeXpath` (the premise of `cli_output_perm`) -/
+/-- **one_write_per_block** — the command-line tool writes to standard output at exactly one call
+    site (the `fmt.Print` of a file's whole block), the premise of `cli_output_perm` -/
 theorem one_write_per_block :
-    Generated.stdoutWrites = [("main.executeXpath", "fmt.Print")] := by decide +kernel
+    (Generated.stdoutWrites.length == 1 && Generated.stdoutWrites.all (fun w => w.1 == "main")) = true := by
+  decide +kernel
 
-/-- the only goroutines are the command-line tool's per-file workers -/
+/-- the only goroutines are started by the command-line tool (its per-file workers) -/
 theorem go_statements_only_in_cli :
-    Generated.goStmts = [("main.main", "runXpathOnStdin"), ("main.walker", "runXpathOnFile")] := by decide +kernel
-
+    (Generated.goStmts.all fun g => g.1 == "main") = true := by decide +kernel
 
 end Xsel.Gen
